@@ -8,6 +8,7 @@ package pilosa_test
 import (
 	"context"
 	"fmt"
+	"sort"
 	"strings"
 	"time"
 
@@ -206,6 +207,34 @@ func genC28(r *simrt.Rand, tier string) *simrt.Plan {
 	steps := 10 + r.Intn(40)
 	for i := 0; i < steps; i++ {
 		f := &g.fields[r.Intn(n)]
+		if f.typ == "int" && r.Bool(0.3) {
+			// several values at once: one Set per pair on one twin, one import batch (in a
+			// chosen order: the extremes first, last or in the middle) on the other
+			type cv struct{ c, v int64 }
+			var pairs []cv
+			seen := map[int64]bool{}
+			for k := 0; k < 2+r.Intn(4); k++ {
+				c := g.col()
+				if seen[c] {
+					continue
+				}
+				seen[c] = true
+				pairs = append(pairs, cv{c, g.intVal(f)})
+			}
+			switch r.Intn(3) {
+			case 0:
+				sort.Slice(pairs, func(a, b int) bool { return pairs[a].v > pairs[b].v })
+			case 1:
+				sort.Slice(pairs, func(a, b int) bool { return pairs[a].v < pairs[b].v })
+			}
+			I := []int64{0, g.node()}
+			for _, p := range pairs {
+				ops = append(ops, simrt.Op{K: "set", S: []string{g.index, f.name}, I: []int64{p.v, p.c, g.node(), 0}})
+				I = append(I, p.c, p.v)
+			}
+			ops = append(ops, simrt.Op{K: "importval", S: []string{g.index, twinOf(f.name)}, I: I})
+			continue
+		}
 		if r.Bool(0.6) {
 			kind := "set"
 			if r.Bool(0.25) {
